@@ -650,6 +650,10 @@ def run(rep, tier):
     rep.floor("STOP stores of the thread procedure", c11_audit.last_access_rule(rep, u, st2), 1)
     c11_audit.pvt_drain_rule(rep, us)
     rep.floor("descriptor sentinel tests", c11_audit.fd_sentinel_rule(rep, u), 4)
+    st4 = tp.probe(tp.TP_C, {"STOPING": "TP_THREAD_STATE_STOPING"}, "probe:tpstate4")
+    if st4.get("STOPING") is None:
+        raise driver.AnalysisBroken("TP_THREAD_STATE_STOPING not foldable")
+    rep.floor("STOPING stores of the detach entry", c11_audit.detach_wake_rule(rep, u, st4), 1)
     race(rep, u)
     return driver.finish(
         rep, "other",
